@@ -78,7 +78,9 @@ func handle(p []string) (res string) {
 	case "acc":
 		return opAcc(p[1:])
 	case "cborenc":
-		return opCborEnc(p[1:])
+		return opCborEncRT(p[1:])
+	case "cbordec":
+		return opCborDec(p[1:])
 	}
 	return "bad-op"
 }
